@@ -15,19 +15,19 @@ CHECKS = {
  "C01": mc("Every presence subset / boundary value / length-field sweep of the request options (see evidence rule) is encoded by the library through Context::connect/authorize and ContextHandle::*, the bytes captured on the mock transport are decoded by an independent strict MQTT 5 decoder and compared field by field with the packet the standard prescribes; a five-request session is run under every write script with <= K partial/pending-write deviations.", "DESIGN.md 4/C01", E1, "exploration"),
  "C02": mc("Server packets produced by the reference encoder (all legal property subsets, orders, repetitions, reason codes, short forms, identifier and size boundaries) are delivered to the running client and every value is read back through the public accessors and compared with the encoded value or the standard's default.", "DESIGN.md 4/C02", E1, "exploration"),
  "C03": mc("All compositions of short multi-packet byte streams into reads, and structured cut families for long packets around the 512/1024-byte buffer steps, in two reader modes, on the overflow-checked and the wrapping build; observations must equal the reference framing at every quiescent point, with no unread visible bytes, no early end-of-stream, no zero-length read.", "DESIGN.md 4/C03", E3),
- "C04": mc("All byte strings up to a bound over a boundary alphabet, all two-byte prefixes, every truncation / bit flip / byte substitution / length perturbation / property splice / reason byte of valid exemplars of every packet type, every packet type at every phase, EOF / read error at every offset and write error at every write, a long trickled packet in a child process; both builds; oracle: no panic / abort, no stall with unread input.", "DESIGN.md 4/C04", E3, "fault_enumeration"),
+ "C04": mc("All byte strings up to a bound over a boundary alphabet, all two-byte prefixes, every truncation / bit flip / byte substitution / length perturbation / property splice / reason byte of valid exemplars of every packet type, every packet type at every phase, EOF / read error (six io::ErrorKinds, permanent and transient) at every offset and write error / Ok(0) at every write, every bounded continuation of a rich session state followed by one or two packets from a menu of ~110 well-formed expected and unexpected packets, a long trickled packet in a child process; both builds; oracle: no panic / abort, no stall with unread input.", "DESIGN.md 4/C04", E3, "fault_enumeration"),
  "C05": mc("Every sequence of operation starts, conformant acknowledgements (in every order, success and failure, distinguishing content) and delayed/spurious polls up to the stated depth and deviation bound is executed on the real Context/ContextHandle under a strict-waker executor; after every event the completions, their content and the set of still-pending operations must equal the reference model's.", "DESIGN.md 4/C05"),
  "C06": mc("All bounded histories of QoS 0/1/2 publishes with every legal PUBACK/PUBREC/PUBCOMP reason code, interleaved with another operation, with delayed polls between the QoS 2 phases and partial/pending writes as deviations; the decoded wire and the publish() results must equal the model's handshake.", "DESIGN.md 4/C06"),
  "C07": mc("All bounded interleavings of subscribe calls, SUBACKs, stream() calls, inbound PUBLISH with absent / registered / unknown / multiple subscription identifiers, stream drops, unsubscribe and lagging streams; every stream must yield exactly the model's items, in order, intact.", "DESIGN.md 4/C07"),
  "C08": mc("All bounded sequences of inbound PUBLISH (QoS x DUP x identifier x subscription-identifier kind) and PUBREL interleaved with a client publish; the wire must carry exactly one acknowledgement of the right type and identifier per packet, in arrival order.", "DESIGN.md 4/C08"),
- "C09": mc("All sequences over QoS 2 deliveries, re-deliveries and releases for two identifiers up to the stated depth; the stream must yield each distinct message exactly once while every PUBLISH/PUBREL is answered.", "DESIGN.md 4/C09"),
- "C10": mc("Receive Maximum 1,2,3: all bounded histories of publishes and acknowledgements (success / failing) with scheduling deviations; Receive Maximum 65535 / absent / 300: deterministic fill-refuse-drain-refill runs; accept/refuse decisions and wire must equal the model's quota.", "DESIGN.md 4/C10"),
- "C11": mc("Twelve honest 70000-operation runs across the wrap, all bounded histories from counters preset next to the wrap (hook, validated differentially against an honest run), on real handle clones; every identifier on the wire is non-zero and differs from all outstanding ones, subscription identifiers are never reused, nothing panics. Thread interleavings at the two atomics: loom harness (see notes).", "DESIGN.md 4/C11"),
- "C12": mc("Every request kind x size range x M in {L-1, L, L+1, 1, 2^32-1, absent} x Receive Maximum {1, absent}, L computed by the reference encoder; refusal without a byte written and without leaked quota / registration, or the whole packet written.", "DESIGN.md 4/C12", E1, "exploration"),
+ "C09": mc("All sequences over QoS 2 deliveries, re-deliveries and releases for two or three identifiers up to the stated depth (one or two subscribed streams, bare CONNACK and CONNACK with small Receive Maximum / Maximum Packet Size, the client's own QoS 2 publishes interleaved, across a reconnect, every identifier 1..=n at once); the stream must yield each distinct message exactly once while every PUBLISH/PUBREL is answered.", "DESIGN.md 4/C09"),
+ "C10": mc("Receive Maximum 1,2,3: all bounded histories of publishes and acknowledgements (success / failing) with scheduling deviations; Receive Maximum 65535 across a session resume; a QoS 2 publish abandoned before its PUBREC; requests made before connect(); operations on one long-lived handle; Receive Maximum 65535 / absent / 300: deterministic fill-refuse-drain-refill runs; accept/refuse decisions and wire must equal the model's quota.", "DESIGN.md 4/C10"),
+ "C11": mc("Twelve honest 70000-operation runs across the wrap, all bounded histories from counters preset next to the wrap (hook, validated differentially against an honest run), on real handle clones (fresh clones, one long-lived handle used repeatedly, clones of it; locally refused requests in the history); every identifier on the wire is non-zero and differs from all outstanding ones, subscription identifiers are never reused, nothing panics. Thread interleavings at the two atomics: loom harness (see notes).", "DESIGN.md 4/C11"),
+ "C12": mc("Every request kind x size range x M in {L-1, L, L+1, 1, 2^32-1, absent} x Receive Maximum {1, absent}, L computed by the reference encoder; one Context connected twice with different limits (also with a QoS 2 handshake continuing on the second connection), requests made before the connection that carries them; refusal without a byte written and without leaked quota / registration, or the whole packet written.", "DESIGN.md 4/C12", E1, "exploration"),
  "C13": mc("connect()/authorize(): every CONNACK reason x property sets, AUTH exchange, EOF at every offset, read/write errors; run(): every terminating cause injected at every point of every bounded history, flat sweeps over all 29 DISCONNECT reasons; return values must match the cause and run() must otherwise stay pending; nothing is written after the user's DISCONNECT.", "DESIGN.md 4/C13"),
  "C14": mc("The Context is dropped at every point of every bounded history (operations unpolled, awaiting acknowledgement, between QoS 2 phases, acknowledged but unpolled; streams with buffered items), then more operations are started; under the strict-waker executor everything completes with ContextExited / its own result, streams drain and end.", "DESIGN.md 4/C14"),
  "C15": mc("Any pending operation future or stream is dropped at any point of bounded histories with Receive Maximum 1 or 2, followed by the late acknowledgements and further operations; run() stays pending, survivors get their own results, the slot is freed.", "DESIGN.md 4/C15"),
- "C16": mc("Every bounded event script is executed wake-only and replayed with a sweep polling all tasks after every event and with a spurious poll inserted at every position for every task, each under whole-packet / 1-byte reads and accept-all / 1-byte / Pending-first writes, on both builds; all per-channel traces must equal the baseline and the model must agree at every quiescent point.", "DESIGN.md 4/C16"),
+ "C16": mc("Every bounded event script is executed wake-only and replayed with a sweep polling all tasks after every event and with a spurious poll inserted at every position for every task, each under whole-packet / 1-byte reads and accept-all / 1-byte / Pending-first writes, on both builds, also for scripts that end in a transport fault (three io::ErrorKinds, transient errors); every poll gets a fresh waker and only the latest one counts; all per-channel traces must equal the baseline and the model must agree at every quiescent point.", "DESIGN.md 4/C16"),
  "C17": mc("The connection is lost after every prefix of bounded QoS 1/2 histories, the disconnection recorded by the hook, the Context reconnected on a fresh transport for session expiry {0, 1000 s, never} x elapsed {10 s, 100000 s}; the second wire must carry exactly the unfinished PUBLISH (DUP=1) / PUBREL packets in original order or nothing when expired, and the original futures complete / fail.", "DESIGN.md 4/C17"),
 }
 NA_REASON = "check not built yet (work in progress); bounded exhaustive exploration is applicable, see DESIGN.md"
